@@ -61,6 +61,35 @@ const basePrelude = `
 (define-fun max2 ((a Int) (b Int)) Int (ite (>= a b) a b))
 `
 
+// baseSymbols: names declared by basePrelude.
+var baseSymbols = func() map[string]bool {
+	m := map[string]bool{}
+	xs, _ := ParseSx(basePrelude)
+	for _, x := range xs {
+		if len(x.List) > 1 && x.List[1].IsAtom() {
+			m[strings.Trim(x.List[1].Atom, "|")] = true
+			m[x.List[1].Atom] = true
+		}
+		if x.Head() == "declare-datatypes" {
+			for _, a := range flattenAtoms(x) {
+				m[a] = true
+			}
+		}
+	}
+	return m
+}()
+
+func flattenAtoms(x *Sx) []string {
+	if x.IsAtom() {
+		return []string{x.Atom}
+	}
+	var out []string
+	for _, a := range x.List {
+		out = append(out, flattenAtoms(a)...)
+	}
+	return out
+}
+
 var decimalLit = regexp.MustCompile(`^[+-]?(\d+\.?\d*|\.\d+)$`)
 
 // literalFacts: ground facts about the string literals that occur in the code / contracts.
